@@ -20,6 +20,19 @@ pub(crate) fn remove_offset_from_nanos(nanoseconds: u64, offset: i32) -> u64 {
 }
 
 /// Adds a given offset to days and nanoseconds
+///
+/// Returns an [`OutOfRange`](AstrolabeError::OutOfRange) error if the local reading is outside the supported range
+pub(crate) fn try_add_offset_to_dn(
+    days: i32,
+    nanoseconds: u64,
+    offset: i32,
+) -> Result<(i32, u64), AstrolabeError> {
+    let mut nanos = days_nanos_to_nanos(days, nanoseconds);
+    nanos += offset as i128 * NANOS_PER_SEC as i128;
+    nanos_to_days_nanos(nanos)
+}
+
+/// Adds a given offset to days and nanoseconds
 pub(crate) fn add_offset_to_dn(days: i32, nanoseconds: u64, offset: i32) -> (i32, u64) {
     let mut nanos = days_nanos_to_nanos(days, nanoseconds);
     nanos += offset as i128 * NANOS_PER_SEC as i128;
